@@ -194,7 +194,7 @@ def run(sc, tier):
         for p in problems:
             kind = p.split(":")[0].split(" ")[0]
             chk.violation(f"runner:{kind}", f"aiorunner/future_list: {p}",
-                          {"property": PID, "binding": "B", "spec": "Runner", "script": jobs[idx][1], "workers": jobs[idx][2], "observed": out,
+                          {"property": PID, "binding": "B", "spec": "Runner", "script": jobs[idx][1], "workers": jobs[idx][2], "fails": sorted(jobs[idx][3]), "observed": out,
                            "clause": "ExecOnce / DeliverOnce / CleanStop"})
     if jobs:
         chk.sample({"kind": "Runner.tla behaviour replayed on the real aiorunner", "script": jobs[0][1]})
